@@ -23,7 +23,8 @@ LEVEL_TEXT = ("held on N generated topologies/data sets x 12+ probe powers (on, 
               "bound, plus random interior points) x both adjust_power settings; agreement of two separately coded "
               "aggregations is observed on every probe. Exploration only.")
 LEVEL_NOTE = ("complete, healthy data for all components (all batteries working); component graph and API faked; the "
-              "sum of group minimum powers uses the documented definition max(battery excl, min inverter excl)")
+              "sum of group minimum powers uses the documented definition max(battery excl, min inverter excl)"
+              ' Build phase: refusals on an advertised bound are violations (exact sums on both sides since fix 5c04af0); set-points of accepted probes vs inverter exclusion zones; irregular groups, partly working groups, zero-capacity batteries, a bystander group.')
 RULE = ("batdata generator (1-5 groups with 1-3 batteries behind 1-4 shared inverters) restricted to per-component "
         "ordered bounds; probes = the four advertised bounds, +-1 W around each, +-0.001 W, random interior. distinct = "
         "canonical case JSON; non-trivial = >=2 groups or a shared-inverter/shared-battery group, and at least one "
